@@ -16,13 +16,15 @@ Section Alloc.
   Record sok (a : astate) : Prop := {
     so_nodup : NoDup (available (stk a));
     so_avail : forall r, In r (available (stk a)) -> In r (allocatable (stk a)) \/ r < 0;
+    so_avail_nres : forall r, In r (available (stk a)) -> is_reserved r (stk a) = false;
     so_neg_avail : forall r, In r (available (stk a)) -> r < 0 ->
         - r - 1 < next_inf (stk a) /\ allow_inf (stk a) = true;
     so_neg_ty : forall v r, ty a v = Some r -> r < 0 ->
-        - r - 1 < next_inf (stk a) /\ allow_inf (stk a) = true;
+        - r - 1 < next_inf (stk a) /\ (allow_inf (stk a) = true \/ Pset r);
     so_next : 0 <= next_inf (stk a);
-    so_res : reserved (stk a) = [];
-    so_excl : forall r, Pset r -> 0 <= r /\ ~ In r (allocatable (stk a));
+    so_res_lt : forall k, is_reserved k (stk a) = true -> k < 0 /\ - k - 1 < next_inf (stk a);
+    so_excl : forall r, Pset r -> (0 <= r -> ~ In r (allocatable (stk a)))
+                                 /\ (r < 0 -> is_reserved r (stk a) = true);
     so_zero : zero_rule c = true -> ~ In 0 (allocatable (stk a)) /\ ~ Pset 0;
     so_mono : forall v r, t0 v = Some r -> ty a v = Some r;
     so_zero_ty : forall v, zero_rule c = true -> ty a v = Some 0 -> In v (zconsts c);
@@ -58,8 +60,10 @@ Section Alloc.
 
   Lemma pset_unavail : forall a r, sok a -> Pset r -> ~ In r (available (stk a)).
   Proof.
-    intros a r Hs Hp Hin. destruct (so_excl a Hs r Hp) as [Hge Hna].
-    destruct (so_avail a Hs r Hin) as [H|H]; [exact (Hna H) | lia].
+    intros a r Hs Hp Hin. destruct (so_excl a Hs r Hp) as [Hge Hlt].
+    destruct (Z_lt_le_dec r 0) as [Hn|Hn].
+    - rewrite (so_avail_nres a Hs r Hin) in Hlt. specialize (Hlt Hn). discriminate.
+    - destruct (so_avail a Hs r Hin) as [H|H]; [exact (Hge Hn H) | lia].
   Qed.
 
   Lemma zero_unavail : forall a, sok a -> zero_rule c = true -> ~ In 0 (available (stk a)).
@@ -107,7 +111,9 @@ Section Alloc.
     /\ ~ Pset r /\ (zero_rule c = true -> r <> 0).
   Proof.
     intros L E M a r s [Hs [H1 [H2 Hf]]] Hpop.
-    destruct (pop_cases (stk a) r s (so_res a Hs) Hpop) as [Fal [Fres [Fallow Hc]]].
+    destruct (pop_cases_g (stk a) r s Hpop) as [Fal [Fres [Fallow [Hnres Hc]]]].
+    assert (Fisres : forall k, is_reserved k s = is_reserved k (stk a)).
+    { intros k. unfold is_reserved. rewrite Fres. reflexivity. }
     destruct Hc as [[Hav Hn]|[Hav [Hav' [Hallow [Hr Hn]]]]].
     - (* popped from the list *)
       assert (Hin : In r (available (stk a))). { rewrite Hav. apply in_or_app. right. left. reflexivity. }
@@ -121,11 +127,12 @@ Section Alloc.
         * constructor; simpl.
           -- apply NoDup_remove_1 in Hnd. rewrite app_nil_r in Hnd. exact Hnd.
           -- intros q Hq. rewrite Fal. apply (so_avail a Hs). apply Hsub. exact Hq.
+          -- intros q Hq. rewrite Fisres. apply (so_avail_nres a Hs). apply Hsub. exact Hq.
           -- intros q Hq Hneg. rewrite Hn, Fallow. apply (so_neg_avail a Hs); [apply Hsub; exact Hq | exact Hneg].
           -- intros v q Hq Hneg. rewrite Hn, Fallow. exact (so_neg_ty a Hs v q Hq Hneg).
           -- rewrite Hn. exact (so_next a Hs).
-          -- exact Fres.
-          -- intros q Hq. rewrite Fal. exact (so_excl a Hs q Hq).
+          -- intros k Hk. rewrite Fisres in Hk. rewrite Hn. exact (so_res_lt a Hs k Hk).
+          -- intros q Hq. rewrite Fal, Fisres. exact (so_excl a Hs q Hq).
           -- intros Hz. rewrite Fal. exact (so_zero a Hs Hz).
           -- exact (so_mono a Hs).
           -- exact (so_zero_ty a Hs).
@@ -147,11 +154,13 @@ Section Alloc.
           -- rewrite Hav'. constructor.
           -- intros q Hq. rewrite Hav' in Hq. destruct Hq.
           -- intros q Hq. rewrite Hav' in Hq. destruct Hq.
+          -- intros q Hq. rewrite Hav' in Hq. destruct Hq.
           -- intros v q Hq Hneg. rewrite Hn, Fallow.
              destruct (so_neg_ty a Hs v q Hq Hneg) as [Hlt Hal]. split; [lia | exact Hal].
           -- rewrite Hn. lia.
-          -- exact Fres.
-          -- intros q Hq. rewrite Fal. exact (so_excl a Hs q Hq).
+          -- intros k Hk. rewrite Fisres in Hk. rewrite Hn.
+             destruct (so_res_lt a Hs k Hk) as [K1 K2]. split; [exact K1 | lia].
+          -- intros q Hq. rewrite Fal, Fisres. exact (so_excl a Hs q Hq).
           -- intros Hz. rewrite Fal. exact (so_zero a Hs Hz).
           -- exact (so_mono a Hs).
           -- exact (so_zero_ty a Hs).
@@ -163,7 +172,9 @@ Section Alloc.
       + intros w Hw Hc. destruct (so_neg_ty a Hs w r Hc) as [Hlt _]; lia.
       + intros _. rewrite Hn, Fallow. split; [lia | exact Hallow].
       + right. lia.
-      + intros [w Hw]. destruct (so_excl a Hs r (ex_intro _ w Hw)) as [Hge _]. lia.
+      + intros HP. destruct (so_excl a Hs r HP) as [_ Hlt].
+        assert (Hrneg : r < 0) by lia.
+        destruct (so_res_lt a Hs r (Hlt Hrneg)) as [_ K]. lia.
       + intros _. lia.
   Qed.
 
@@ -174,7 +185,7 @@ Section Alloc.
     ~ In r (available (stk a)) ->
     (forall w, L w -> w <> v -> ty a w = Some r ->
         Pset r \/ (zero_rule c = true /\ r = 0) \/ (E v w /\ E w v)) ->
-    (r < 0 -> - r - 1 < next_inf (stk a) /\ allow_inf (stk a) = true) ->
+    (r < 0 -> - r - 1 < next_inf (stk a) /\ (allow_inf (stk a) = true \/ Pset r)) ->
     (zero_rule c = true -> r = 0 -> In v (zconsts c)) ->
     (Pset r -> forced t0 l v r) ->
     (In r (allocatable (stk a)) \/ (r < 0 /\ allow_inf (stk a) = true)
@@ -188,12 +199,13 @@ Section Alloc.
       + constructor; simpl.
         * exact (so_nodup a Hs).
         * exact (so_avail a Hs).
+        * exact (so_avail_nres a Hs).
         * exact (so_neg_avail a Hs).
         * intros w q. destruct (Nat.eqb w v) eqn:Ew.
           -- intros Hq. inversion Hq; subst. exact Hc4.
           -- exact (so_neg_ty a Hs w q).
         * exact (so_next a Hs).
-        * exact (so_res a Hs).
+        * exact (so_res_lt a Hs).
         * exact (so_excl a Hs).
         * exact (so_zero a Hs).
         * intros w q Hq. destruct (Nat.eqb w v) eqn:Ew.
@@ -242,30 +254,60 @@ Section Alloc.
     intros L E M a v r [Hs [H1 [H2 Hf]]] HLv Hty HE.
     unfold free_value. rewrite Hty.
     pose proof (push_fields r (stk a)) as [Fal [Fn [Fr Fi]]].
+    assert (Fisres : forall k, is_reserved k (push r (stk a)) = is_reserved k (stk a)).
+    { intros k. unfold is_reserved. rewrite Fr. reflexivity. }
     split; [|reflexivity].
-    destruct (push_cases r (stk a) (so_res a Hs)) as [[Hp [Hnal Hge]]|[Hp Hor]].
+    destruct (push_cases_g r (stk a)) as [[Hp _]|[Hp [Hnres Hor]]].
     - (* ignored *)
       split; [|split; [|split]].
-      + constructor; simpl; rewrite ?Hp, ?Fal, ?Fn, ?Fr, ?Fi; try apply Hs.
+      + constructor; simpl.
+        * rewrite Hp. exact (so_nodup a Hs).
+        * rewrite Hp, Fal. exact (so_avail a Hs).
+        * intros q Hq. rewrite Hp in Hq. rewrite Fisres. exact (so_avail_nres a Hs q Hq).
+        * rewrite Hp, Fn, Fi. exact (so_neg_avail a Hs).
+        * rewrite Fn, Fi. exact (so_neg_ty a Hs).
+        * rewrite Fn. exact (so_next a Hs).
+        * intros k Hk. rewrite Fisres in Hk. rewrite Fn. exact (so_res_lt a Hs k Hk).
+        * intros q Hq. rewrite Fal, Fisres. exact (so_excl a Hs q Hq).
+        * rewrite Fal. exact (so_zero a Hs).
+        * exact (so_mono a Hs).
+        * exact (so_zero_ty a Hs).
+        * exact (so_forced a Hs).
+        * rewrite Fal, Fi. exact (so_prov a Hs).
       + intros w q [Hw _] Hq. simpl in *. rewrite Hp. exact (H1 w q Hw Hq).
       + intros v1 v2 q [Hv1 _] [Hv2 _]. exact (H2 v1 v2 q Hv1 Hv2).
       + exact Hf.
-    - (* pushed: r is allocatable or infinite, hence neither pre-assigned nor zero, hence unshared *)
+    - (* pushed: r is not reserved and allocatable or infinite, hence neither pre-assigned nor zero *)
       assert (HnP : ~ Pset r).
-      { intro HP. destruct (so_excl a Hs r HP) as [Hge Hna]. destruct Hor as [H|H]; [exact (Hna H) | lia]. }
+      { intro HP. destruct (so_excl a Hs r HP) as [Hge Hlt]. destruct (Z_lt_le_dec r 0) as [Hn|Hn].
+        - rewrite Hnres in Hlt. specialize (Hlt Hn). discriminate.
+        - destruct Hor as [H|H]; [exact (Hge Hn H) | lia]. }
       assert (Hnz : ~ (zero_rule c = true /\ r = 0)).
       { intros [Hz Hr]. subst r. destruct (so_zero a Hs Hz) as [Hna _]. destruct Hor as [H|H]; [exact (Hna H) | lia]. }
       split; [|split; [|split]].
-      + constructor; simpl; rewrite ?Fal, ?Fn, ?Fr, ?Fi; try apply Hs.
+      + constructor; simpl.
         * rewrite Hp. apply NoDup_snoc.
           -- apply NoDup_remove_first. exact (so_nodup a Hs).
           -- apply not_In_remove_first. exact (so_nodup a Hs).
-        * intros q Hq. rewrite Hp in Hq. apply in_app_or in Hq. destruct Hq as [Hq|Hq].
+        * intros q Hq. rewrite Fal. rewrite Hp in Hq. apply in_app_or in Hq. destruct Hq as [Hq|Hq].
           -- apply (so_avail a Hs). eapply In_remove_first. exact Hq.
           -- simpl in Hq. destruct Hq as [Hq|[]]. subst q. exact Hor.
-        * intros q Hq Hneg. rewrite Hp in Hq. apply in_app_or in Hq. destruct Hq as [Hq|Hq].
+        * intros q Hq. rewrite Fisres. rewrite Hp in Hq. apply in_app_or in Hq. destruct Hq as [Hq|Hq].
+          -- apply (so_avail_nres a Hs). eapply In_remove_first. exact Hq.
+          -- simpl in Hq. destruct Hq as [Hq|[]]. subst q. exact Hnres.
+        * intros q Hq Hneg. rewrite Fn, Fi. rewrite Hp in Hq. apply in_app_or in Hq. destruct Hq as [Hq|Hq].
           -- apply (so_neg_avail a Hs); [eapply In_remove_first; exact Hq | exact Hneg].
-          -- simpl in Hq. destruct Hq as [Hq|[]]. subst q. exact (so_neg_ty a Hs v r Hty Hneg).
+          -- simpl in Hq. destruct Hq as [Hq|[]]. subst q.
+             destruct (so_neg_ty a Hs v r Hty Hneg) as [Hb [Hal|HP]]; [split; assumption | contradiction].
+        * rewrite Fn, Fi. exact (so_neg_ty a Hs).
+        * rewrite Fn. exact (so_next a Hs).
+        * intros k Hk. rewrite Fisres in Hk. rewrite Fn. exact (so_res_lt a Hs k Hk).
+        * intros q Hq. rewrite Fal, Fisres. exact (so_excl a Hs q Hq).
+        * rewrite Fal. exact (so_zero a Hs).
+        * exact (so_mono a Hs).
+        * exact (so_zero_ty a Hs).
+        * exact (so_forced a Hs).
+        * rewrite Fal, Fi. exact (so_prov a Hs).
       + intros w q [Hw Hwv] Hq Hin. simpl in *. rewrite Hp in Hin. apply in_app_or in Hin.
         destruct Hin as [Hin|Hin].
         * apply (H1 w q Hw Hq). eapply In_remove_first. exact Hin.
@@ -319,7 +361,7 @@ Section Alloc.
       destruct (set_ty_inv L E M (set_stk a s) v r HI1 Hnone1) as [HI2 Hm2].
       + exact Hna.
       + intros w Hw _ Hq. exfalso. exact (Hnone_r w Hw Hq).
-      + exact Hneg.
+      + intros Hlt. destruct (Hneg Hlt) as [K1 K2]. split; [exact K1 | left; exact K2].
       + intros Hz Hr. exfalso. exact (Hnz Hz Hr).
       + intros HP. contradiction.
       + simpl. destruct Hprov as [H|H]; [left; exact H | right; left; split; [exact H | apply Hneg; exact H]].
@@ -390,7 +432,7 @@ Section Alloc.
       destruct (set_ty_inv L E M (set_stk a s) x r HI1 Hx) as [HI2 Hm2].
       + exact Hna.
       + intros w Hw _ Hq. exfalso. exact (Hnone_r w Hw Hq).
-      + exact Hneg.
+      + intros Hlt. destruct (Hneg Hlt) as [K1 K2]. split; [exact K1 | left; exact K2].
       + intros Hz Hr. exfalso. exact (Hnz Hz Hr).
       + intros HP. contradiction.
       + exact Hprov'.
@@ -403,7 +445,7 @@ Section Alloc.
              ++ subst w. right. right. split; assumption.
              ++ rewrite set_ty_other in Hq by exact Ew. exfalso. exact (Hnone_r w Hw Hq).
           -- subst w. right. right. split; assumption.
-        * exact Hneg.
+        * intros Hlt. destruct (Hneg Hlt) as [K1 K2]. split; [exact K1 | left; exact K2].
         * intros Hz Hr. exfalso. exact (Hnz Hz Hr).
         * intros HP. contradiction.
         * simpl. destruct Hprov as [H|H]; [left; exact H | right; left; split; [exact H | apply Hneg; exact H]].
@@ -419,7 +461,8 @@ Section Alloc.
       destruct (set_ty_inv (addv L x) E (addv M x) a y X HI1 Hy) as [HI2 Hm2].
       + apply pset_unavail; assumption.
       + intros w _ _ _. left. exact HPX.
-      + intros Hneg. destruct (so_excl a Hs X HPX) as [Hge _]. lia.
+      + intros Hneg. destruct (so_excl a Hs X HPX) as [_ Hlt].
+        destruct (so_res_lt a Hs X (Hlt Hneg)) as [_ K]. split; [exact K | right; exact HPX].
       + intros Hz HX0. subst X. destruct (so_zero a Hs Hz) as [_ Hn]. contradiction.
       + intros _. apply (F_res t0 l x y X Htied). apply (so_forced a Hs x X Hx HPX).
       + right. right. right. exact HPX.
